@@ -56,6 +56,8 @@ var t1PathArgs = map[string]struct {
 
 func runC06(c *Ctx) {
 	info := c.info("type1")
+	// charstrings and subroutines arrive as `n RD ~n~binary~bytes~`: RD is readstring
+	c.scannerOperators(c.interp(), c.registry(), "T1-BINARY", "readstring")
 	decFD := c.funcDecl("type1", "decodeInfo", "decodeCharString")
 	fname := "type1.(*decodeInfo).decodeCharString"
 
